@@ -5,6 +5,7 @@ import random
 from engine import graph, tlc
 
 ALL_ACTS = ["Add", "Delete", "Expunge", "Append", "Insert", "Remove", "Pop", "Replace", "SetParent", "Flush", "CommitReload"]
+# "SetVal" (plain scalar column) is enabled only where a check lists it (C36): it multiplies the state space by 2^NC
 CASC = {
     "default": ["save-update", "merge"],
     "delete": ["save-update", "merge", "delete"],
